@@ -1,26 +1,55 @@
-// ---- wire model of the serde data model (spec level): lifting the per-kind contracts to values nested to ANY depth ----
+// ---- abstract wire model of the serde data model as postcard lays it out (spec/src/wire-format.md) ----
 // Leaves (all scalar kinds: bool, i8..i128, u8..u128, f32, f64, char, str, bytes) are abstract: `Leaf(kind, payload)` with an
-// uninterpreted codec per kind. The three hypotheses below are exactly what the per-kind obligations discharge on the real code:
+// uninterpreted codec per kind. The two hypotheses below are exactly what the per-kind obligations discharge on the real code:
 //   hyp_leaf_roundtrip  <=  C01.K.kind.*  (take_from_bytes(to_slice(v) ++ tail) == Ok(v, tail) for every value of the kind)
-//   hyp_len_roundtrip   <=  C02.V.varint.varint_usize + C03.K.de.take_usize (varint(usize) round trip, every usize)
 //   hyp_leaf_size       <=  C12.K.value.* / C12.V.varint.len_* (|encoding| <= declared per-kind maximum)
+// Length prefixes (seq / map / str counts: varint(usize), 64-bit host) and variant indices (varint(u32)) are NOT abstract: they are
+// the LEB128 encoder `enc` of specs/varint.rs - what the real writers are proved to emit (C02.V.varint.*) - and the bit-form decoders
+// dec_u64 / dec_u32 - what the real readers are proved to compute (C03.V.de.take_*); their round trip is the proved lemma
+// C01.L.varint.roundtrip_* and their size bound the proved monotonicity of |enc|.
 pub uninterp spec fn enc_leaf(kind: nat, x: int) -> Seq<u8>;
 pub uninterp spec fn dec_leaf(kind: nat, b: Seq<u8>) -> Option<(int, Seq<u8>)>;
 pub uninterp spec fn leaf_ok(kind: nat, x: int) -> bool;       // x is a value of that kind
 pub uninterp spec fn leaf_max(kind: nat) -> nat;              // POSTCARD_MAX_SIZE of the kind
-pub uninterp spec fn enc_len(n: nat) -> Seq<u8>;              // varint(usize) / varint(u32) prefix
-pub uninterp spec fn dec_len(b: Seq<u8>) -> Option<(nat, Seq<u8>)>;
-pub uninterp spec fn len_max(n: nat) -> nat;                  // bytes needed for any prefix value <= n
+pub open spec fn enc_len(n: nat) -> Seq<u8> { enc(n) }        // count prefix and variant index: canonical LEB128
+pub open spec fn dec_len(b: Seq<u8>) -> Option<(nat, Seq<u8>)> {      // count prefix: the varint(usize) reader (64-bit host)
+    match dec_u64(b) { DecRes::Ok(v, used) => Some((v as nat, b.subrange(used, b.len() as int))), _ => None }
+}
+pub open spec fn dec_idx(b: Seq<u8>) -> Option<(nat, Seq<u8>)> {      // variant index: the varint(u32) reader
+    match dec_u32(b) { DecRes::Ok(v, used) => Some((v as nat, b.subrange(used, b.len() as int))), _ => None }
+}
+pub open spec fn len_max(n: nat) -> nat { enc(n).len() }      // bytes needed for any prefix value <= n (monotone: lemma_len_size)
 
 #[verifier::external_body]
 pub proof fn hyp_leaf_roundtrip(kind: nat, x: int, rest: Seq<u8>)
     requires leaf_ok(kind, x) ensures dec_leaf(kind, enc_leaf(kind, x) + rest) == Some((x, rest)) {}
 #[verifier::external_body]
-pub proof fn hyp_len_roundtrip(n: nat, rest: Seq<u8>) ensures dec_len(enc_len(n) + rest) == Some((n, rest)) {}
-#[verifier::external_body]
 pub proof fn hyp_leaf_size(kind: nat, x: int) requires leaf_ok(kind, x) ensures enc_leaf(kind, x).len() <= leaf_max(kind) {}
-#[verifier::external_body]
-pub proof fn hyp_len_size(k: nat, n: nat) requires k <= n ensures enc_len(k).len() <= len_max(n) {}
+
+// formerly hypotheses, now proved from the varint round-trip lemmas
+pub proof fn lemma_len_roundtrip(n: nat, rest: Seq<u8>)
+    requires n <= u64::MAX
+    ensures dec_len(enc_len(n) + rest) == Some((n, rest))
+{
+    lemma_varint_roundtrip_u64(n as u64, rest);
+    let b = enc(n) + rest;
+    assert(b.subrange(enc(n).len() as int, b.len() as int) =~= rest);
+}
+pub proof fn lemma_idx_roundtrip(n: nat, rest: Seq<u8>)
+    requires n <= u32::MAX
+    ensures dec_idx(enc_len(n) + rest) == Some((n, rest))
+{
+    lemma_varint_roundtrip_u32(n as u32, rest);
+    let b = enc(n) + rest;
+    assert(b.subrange(enc(n).len() as int, b.len() as int) =~= rest);
+}
+pub proof fn lemma_len_size(k: nat, n: nat)
+    requires k <= n
+    ensures enc_len(k).len() <= len_max(n)
+    decreases n
+{
+    if k >= 128 { lemma_len_size(k / 128, n / 128); } else { lemma_enc_len_pos(n); }
+}
 
 pub enum Val {
     Leaf(nat, int),                 // any scalar kind
@@ -48,9 +77,9 @@ pub open spec fn typed(v: Val, s: Shape) -> bool
         (Val::Unit, Shape::Unit) => true,
         (Val::None, Shape::Opt(_)) => true,
         (Val::Some(x), Shape::Opt(t)) => typed(*x, *t),
-        (Val::Seq(xs), Shape::Seq(t)) => forall|i: int| 0 <= i < xs.len() ==> typed(#[trigger] xs[i], *t),
+        (Val::Seq(xs), Shape::Seq(t)) => xs.len() <= usize::MAX && forall|i: int| 0 <= i < xs.len() ==> typed(#[trigger] xs[i], *t),   // a count is a usize
         (Val::Tuple(xs), Shape::Tuple(ts)) => xs.len() == ts.len() && forall|i: int| 0 <= i < xs.len() ==> typed(#[trigger] xs[i], ts[i]),
-        (Val::Variant(k, x), Shape::Enum(ts)) => k < ts.len() && typed(*x, ts[k as int]),
+        (Val::Variant(k, x), Shape::Enum(ts)) => k < ts.len() && k <= u32::MAX && typed(*x, ts[k as int]),           // a variant index is a u32
         _ => false,
     }
 }
@@ -86,7 +115,7 @@ pub open spec fn dec_val(s: Shape, b: Seq<u8>) -> Option<(Val, Seq<u8>)>
                          else { None },
         Shape::Seq(t) => match dec_len(b) { Some((n, r)) => match dec_n(*t, n, r) { Some((xs, r2)) => Some((Val::Seq(xs), r2)), None => None }, None => None },
         Shape::Tuple(ts) => match dec_tuple(ts, 0, b) { Some((xs, r)) => Some((Val::Tuple(xs), r)), None => None },
-        Shape::Enum(ts) => match dec_len(b) { Some((k, r)) => if k < ts.len() { match dec_val(ts[k as int], r) { Some((x, r2)) => Some((Val::Variant(k, Box::new(x)), r2)), None => None } } else { None }, None => None },
+        Shape::Enum(ts) => match dec_idx(b) { Some((k, r)) => if k < ts.len() { match dec_val(ts[k as int], r) { Some((x, r2)) => Some((Val::Variant(k, Box::new(x)), r2)), None => None } } else { None }, None => None },
     }
 }
 pub open spec fn dec_n(t: Shape, n: nat, b: Seq<u8>) -> Option<(Seq<Val>, Seq<u8>)>
@@ -120,7 +149,7 @@ pub proof fn lemma_model_roundtrip(v: Val, s: Shape, rest: Seq<u8>)
             assert((enc_val(v) + rest).subrange(1, (enc_val(v) + rest).len() as int) =~= enc_val(*x) + rest);
         }
         (Val::Seq(xs), Shape::Seq(t)) => {
-            hyp_len_roundtrip(xs.len(), enc_all(xs, 0) + rest);
+            lemma_len_roundtrip(xs.len(), enc_all(xs, 0) + rest);
             assert(enc_val(v) + rest =~= enc_len(xs.len()) + (enc_all(xs, 0) + rest));
             lemma_rt_seq(xs, 0, *t, rest);
             assert(xs.subrange(0, xs.len() as int) =~= xs);
@@ -130,7 +159,7 @@ pub proof fn lemma_model_roundtrip(v: Val, s: Shape, rest: Seq<u8>)
             assert(xs.subrange(0, xs.len() as int) =~= xs);
         }
         (Val::Variant(k, x), Shape::Enum(ts)) => {
-            hyp_len_roundtrip(k, enc_val(*x) + rest);
+            lemma_idx_roundtrip(k, enc_val(*x) + rest);
             assert(enc_val(v) + rest =~= enc_len(k) + (enc_val(*x) + rest));
             lemma_model_roundtrip(*x, ts[k as int], rest);
         }
@@ -217,7 +246,7 @@ pub proof fn lemma_model_size_bound(v: Val, s: Shape)
         (Val::Variant(k, x), Shape::Enum(ts)) => {
             lemma_model_size_bound(*x, ts[k as int]);
             lemma_max_sizes_ge(ts, 0, k as int);
-            hyp_len_size(k, ts.len());
+            lemma_len_size(k, ts.len());
         }
         _ => {}
     }
